@@ -74,7 +74,11 @@ func NewLexer(source []rune) *Lexer {
 
 // Next - return current rune, and move forward the cursor for 1 character.
 func (l *Lexer) Next() rune {
-	l.cursor += 1
+	// never move past the EOF position (= len(Source)): scanners that call
+	// Next() once more after EOF must not leave the cursor outside the text
+	if l.cursor < len(l.Source) {
+		l.cursor += 1
+	}
 
 	// still no data, return EOF directly
 	return l.getChar(l.cursor)
